@@ -59,6 +59,39 @@ def empty_map_silent(case, msg, observed=None):
     return n == 0
 
 
+def interrupt_handler_wrapped(case, msg, observed=None):
+    """F-c: the function that raised is an InterruptNode's handler; its exception is surfaced wrapped in a RuntimeError
+    (the original as __cause__)."""
+    g = case.get("graph") if isinstance(case, dict) else None
+    if not g or not ("instead of the exception the node raised" in (msg or "") or "is not the object the node function raised" in (msg or "")):
+        return False
+    failing = [n for n in g["nodes"] if n.get("fn", [None])[0] == "raise"]
+    rep = (observed or {}).get("error_repr") or msg or ""
+    return bool(failing) and all(n["kind"] == "interrupt" for n in failing) and "RuntimeError" in rep and "Handler for InterruptNode" in rep
+
+
+def interrupt_with_edge_default(case, msg, observed=None):
+    """F-f: an interrupt has a signature default on a parameter that an upstream node feeds: it runs (and pauses) early on
+    the default and re-executes through its handler when the upstream value arrives, so the answered run pauses again."""
+    g = case.get("graph") if isinstance(case, dict) else None
+    if not g:
+        return False
+    produced = _produced(g)
+    return any(n["kind"] == "interrupt" and any(p in produced for p in n.get("defaults", {})) for n in g["nodes"])
+
+
+def bound_output_name(case, msg, observed=None):
+    """F-g: the graph binds a name that one of its own nodes produces; the reported spec ignores that the producer is then
+    bypassed (its inputs stay 'required', yet supplying them is rejected and omitting them is accepted or rejected with the
+    internal-override ValueError instead of MissingInputError)."""
+    g = case.get("graph") if isinstance(case, dict) else None
+    if not g or not g.get("bound"):
+        return False
+    if not ("yet the call is rejected" in (msg or "") or "omitted but the call was" in (msg or "")):
+        return False
+    return any(k in _produced(g) for k in g["bound"])
+
+
 def viz_renamed_boundary(case, msg, observed=None):
     """A drawing is unfaithful only around a value that has different names inside and outside a nested graph
     (GraphNode.with_inputs / with_outputs): the same graph without those renames ('twin') draws faithfully, and every
@@ -69,7 +102,7 @@ def viz_renamed_boundary(case, msg, observed=None):
     return bool(probs) and all(p.get("code") in (3, 4, 14, 5, 15, 7) for p in probs)
 
 
-MATCHERS = {f.__name__: f for f in (waiter_with_edge_default, ambiguous_cycle_entry, empty_map_silent, viz_renamed_boundary)}
+MATCHERS = {f.__name__: f for f in (waiter_with_edge_default, ambiguous_cycle_entry, empty_map_silent, viz_renamed_boundary, interrupt_handler_wrapped, interrupt_with_edge_default, bound_output_name)}
 
 
 def classify(ctx, case, msg, observed=None):
